@@ -579,7 +579,9 @@ fn bad_case(bin: &str, c: &Value, rep: &mut Report) {
         s.local_addr().unwrap().port()
     };
     let p = dead_port.to_string();
+    let flag_text = format!("{}={}", c["flag"].as_str().unwrap_or(""), c["text"].as_str().unwrap_or(""));
     let args: Vec<&str> = match c["err"].as_str().unwrap() {
+        "unrepresentable_timeout" => vec!["query", "-g", if c["flag"] == "--connect-timeout" { "minecraft" } else { "csgo" }, "-i", "127.0.0.1", "-p", &p, "-f", fmt, &flag_text],
         "unknown_game" => vec!["query", "-g", "nosuchgame", "-i", "127.0.0.1", "-f", fmt],
         "unresolvable_host" => vec!["query", "-g", "csgo", "-i", "no.such.host.invalid", "-f", fmt],
         "unreachable_server" => vec!["query", "-g", "csgo", "-i", "127.0.0.1", "-p", &p, "-f", fmt, "--read-timeout", "1", "--connect-timeout", "1", "--write-timeout", "1"],
@@ -600,7 +602,7 @@ fn bad_case(bin: &str, c: &Value, rep: &mut Report) {
         rep.violation("C19", &sig, json!({"kind":"cli-error","case":c,"args":args,"exit":code,"stdout":out.chars().take(500).collect::<String>(),
                                           "stderr":err.chars().take(800).collect::<String>()}));
     };
-    let e = c["err"].as_str().unwrap();
+    let e = if c["err"] == "unrepresentable_timeout" { format!("unrepresentable_timeout {}", c["text"].as_str().unwrap_or("")) } else { c["err"].as_str().unwrap().to_string() };
     if timed_out {
         fail(format!("cli error case {e}: did not exit"));
     } else if err.contains("panicked at") {
